@@ -19,6 +19,7 @@ EXPLANATION = (
     "groups and leaves the weights alone when w is 0 except for the documented fallback; LF5 step() evaluates the examples with the current weights and "
     "then updates (one E-step, one M-step, in that order) and run() iterates step()."
     " Added after seed round 6: LF4 also requires the normalisation sum to be taken per substitution key."
+    " Added after seed round 7: LF6 the mass reserved for explicitly initialised heads is summed over the heads with multiplicity."
 )
 TECHNIQUE = "static analysis: decision tables of the accumulation loops of the EM update (paired accumulators), summed-set == scaled-set rule"
 LEVEL_TEXT = EXPLANATION
